@@ -360,6 +360,13 @@ def generate(workdir, prop, tier, rng):
     states += d
     trans += g
     add(b, 500 if tier == "quick" else 12000)
+    if prop == "C15":
+        # one writer, every order of 4 write times over 4 statements on one key (repeated / decreasing write times)
+        b, d, g, w = vf.gen_behaviours(workdir, "S3db", cfg_text(["w1"], ["k1"], 4, 4, 0, 1), name="gen_single")
+        notes.append("S3db single writer, 1 key, 4 times, 4 stmts, exhaustive: %d behaviours, %d distinct states, %.0fs" % (len(b), d, w))
+        states += d
+        trans += g
+        add(b, 600 if tier == "quick" else 4000)
     nsim = 150 if tier == "quick" else 2000
     b, d, g, w = vf.gen_behaviours(workdir, "S3db", cfg_text(["w1", "w2", "w3"], ["k1", "k2"], 5, 5, 3, 6, withtx=withtx),
                                    name="gen_sim", simulate=nsim, depth=45)
